@@ -141,6 +141,7 @@ def noise_kinds(c, f):
         ("callsec-neg", [("rx", m_callsec(c, f, 1, neg=True), "noise")], False),
         ("ack-file-early", [("rx", m_ack(c, f, 1, 1), "noise")], False),
         ("nack-file", [("rx", m_ack(c, f, 1, 2), "noise")], False),
+        ("nack-file-err", [("rx", m_ack(c, f, 1, 0x22), "noise")], False),
         ("ack-section", [("rx", m_ack(c, f, 1, 3), "noise")], False),
         ("nack-section", [("rx", m_ack(c, f, 1, 4), "noise")], False),
         ("ack-odd", [("rx", m_ack(c, f, 1, 0x11), "noise")], False),
@@ -193,6 +194,13 @@ def oracle_download(c, f, steps, out, good, lines=None):
     if lines is not None:
         pairs, _ = split_trace(lines, out)
         pos = 0
+        prev_state = None
+        # a supervision timeout may have ended the transfer unnoticed between two dumps: scripts that advance the clock by a
+        # timeout or more are not judged by the outcome-missing clause
+        timed_out = any(l.startswith("adv ") and int(l.split()[1]) >= c.timeout for l in lines)
+
+        def body_matches(d, f):
+            return d.get("ca") == f.ca and d.get("ioa") == f.ioa and int.from_bytes(d["body"][0:2], "little") == f.nof
         for prod, grp in pairs:
             w = prod.split()
             if w[0] in ("rx", "rx2") and w[1] != "-":
@@ -202,6 +210,9 @@ def oracle_download(c, f, steps, out, good, lines=None):
                 # the outcome told to the provider must be the one the master acknowledged
                 if d0 and d0["tid"] == 124 and len(d0.get("body", b"")) >= 4:
                     afq = d0["body"][3]
+                    if (afq == 1 or (afq & 15) == 2) and prev_state == "WAIT_FILE_ACK" and d0["cot"] == 13 and not any(g.startswith("cb complete") for g in grp) \
+                            and body_matches(d0, f) and not timed_out:
+                        bad.append(("outcome-missing", "the master ended the transfer with a file acknowledgement AFQ %#04x while the server waited for it; the provider was not told the outcome" % afq))
                     for g in grp:
                         if g.startswith("cb complete"):
                             told = int(g.split()[2])
@@ -209,6 +220,8 @@ def oracle_download(c, f, steps, out, good, lines=None):
                             if want is None or told != want:
                                 bad.append(("outcome-mismatch", "master acknowledged the file with AFQ %d, provider was told transferComplete(%d)" % (afq, told)))
             pos += len(grp)
+            if grp and grp[-1].startswith("st "):
+                prev_state = grp[-1].split()[1]
     cur = {}                  # section number -> bytearray since the last section-ready for it
     done_secs = {}            # section number -> data at the time of its last-segment message
     completes = []
@@ -324,6 +337,13 @@ def gen(rng, quick):
                                           ([] if quick else [([65535], 100, 0), ([8192] * 8, 99, 2999), ([236 * 31, 236 * 30], 100, 2899)])):
         f = File(sh, seed=100 + i)
         out.append(("dl.paced.%d" % i, "dl", True, c0, f, download_script(c0, f, {1: 1} if i % 2 else None, pace=pace, think=think), 1))
+    # (1c) complete downloads that the master ends with a NEGATIVE file acknowledgement, with and without an error code in
+    #      the upper nibble of AFQ: the provider has to be told transferComplete(false)
+    for i, afq in enumerate([0x02, 0x12, 0x22, 0x32, 0x42, 0x52]):
+        f = File([5, 300], seed=200 + i)
+        st = download_script(c0, f)
+        st[-1] = ("rx", m_ack(c0, f, len(f.lens) + 1, afq), "ackfile")
+        out.append(("dl.negack.%02x" % afq, "dl", False, c0, f, st, 1))
     # (2) address sizes x maximum ASDU sizes
     for cot in (1, 2):
         for ca in (1, 2):
